@@ -995,8 +995,59 @@ def gen_case(rng, i):
     return G.rand_decay_spec(rng, topo=rng.choice(["closed-dag", "closed-reversible", "chain-noloss"]))
 
 
+def reused_result_probe(ck):
+    """A result dataset handed in again as the data of another model: the species_concentration reported for the second
+    fit must be the concentrations of the SECOND model (observation point Result.data[label].species_concentration).
+    Recorded finding: decay finalize_data returns early when the input already carries a `species` coordinate, so the
+    first model's species_concentration / SAS / DAS / a_matrix are reported again (found by a seeding sub-agent while
+    exploring; witness replayed on every run)."""
+    import xarray as xr
+    from glotaran.io import load_model, load_parameters
+    from glotaran.optimization.optimize import optimize
+    from glotaran.project import Scheme
+    from glotaran.simulation import simulate
+
+    def model(kind):
+        return load_model(f"""
+megacomplex:
+  m1: {{type: {kind}, compartments: [s1, s2], rates: [rates.1, rates.2]}}
+dataset:
+  d1: {{megacomplex: [m1]}}
+""", format_name="yml_str")
+    p = load_parameters("rates:\n  - ['1', 1.0]\n  - ['2', 0.25]\n", format_name="yml_str")
+    t = np.linspace(0.0, 8.0, 17)
+    g = np.array([1.0, 2.0, 3.0])
+    clp = xr.DataArray([[1.0, 2.0], [2.0, 1.0], [1.0, 1.0]], coords=[("spectral", g), ("clp_label", ["s1", "s2"])])
+    m_par, m_seq = model("decay-parallel"), model("decay-sequential")
+    case = {"probe": "result-dataset-reused-as-data", "first": "decay-parallel", "second": "decay-sequential", "rates": [1.0, 0.25]}
+    with warnings.catch_warnings():
+        warnings.simplefilter("ignore")
+        data = simulate(m_par, "d1", p, {"time": t, "spectral": g}, clp)
+
+        def fit(m, d):
+            return optimize(Scheme(model=m, parameters=p, data={"d1": d}, maximum_number_function_evaluations=1),
+                            verbose=False, raise_exception=True).data["d1"]
+        first = fit(m_par, data)
+        second = fit(m_seq, first)
+        fresh = fit(m_seq, data)
+    ck.oracle_evals += 1
+    ck.count("probe:result-dataset-reused-as-data")
+    ck.case(("reused-result", json.dumps(case)), True)
+    k1, k2 = 1.0, 0.25
+    want = np.stack([np.exp(-k1 * t), k1 / (k2 - k1) * (np.exp(-k1 * t) - np.exp(-k2 * t))], axis=1)   # s1 -> s2 -> ground
+    got = np.asarray(second.species_concentration.transpose("time", "species").values, dtype=float)
+    if got.shape == want.shape and not np.allclose(got, want, rtol=1e-9, atol=1e-12):
+        stale = np.allclose(got, np.asarray(first.species_concentration.transpose("time", "species").values, dtype=float))
+        ck.violation("stale-species-when-result-dataset-is-reused-as-data" if stale else "reused-result-dataset-wrong-concentrations",
+                     "a result dataset used as the data of a second fit with another model: species_concentration of the second "
+                     "result is " + ("the first model's" if stale else "wrong") + f" (max deviation {float(np.abs(got - want).max()):.3g}); "
+                     "a fit of the same model on the plain data reports the right one: "
+                     f"{bool(np.allclose(np.asarray(fresh.species_concentration.transpose('time', 'species').values), want, rtol=1e-9, atol=1e-12))}", case)
+
+
 def run(ck):
     model_cls()
+    reused_result_probe(ck)
     batch = []
     for c in core.load_corpus(PROP):
         check_case(ck, c["spec"], batch)
